@@ -23,11 +23,11 @@ func selftestDeterminism(ids []string) int {
 	for _, id := range ids {
 		var ref []byte
 		n := 0
-		for _, procs := range []string{"1", "4", "16", "16"} {
+		for _, procs := range []string{"1", "4", "16", "16", "2", "8"} {
 			out := filepath.Join(b.dir, "det-"+id+"-"+procs+fmt.Sprint(n))
 			os.MkdirAll(out, 0o755)
 			os.Setenv("GOMAXPROCS", procs)
-			o, err, _ := runEngine(b.bin, 10*time.Minute, "-wsim.prop", id, "-wsim.seed", "7", "-wsim.n", "40", "-wsim.out", out, "-wsim.log",
+			o, err, _ := runEngine(b.bin, 10*time.Minute, "-wsim.prop", id, "-wsim.seed", "7", "-wsim.n", "100", "-wsim.out", out, "-wsim.log",
 				"-wsim.sites", filepath.Join(b.dir, "sites.json"), "-wsim.maxfail", "1000")
 			_ = err
 			_ = o
